@@ -130,3 +130,49 @@ def batch_vs_alone(ctx, games, fields, label):
                                   {"entry": key, "field": fld, "in_batch": res[key].get(fld), "alone": alone[i][key].get(fld)})
                     return
     ctx.count("batch_vs_alone")
+
+
+def optimized_interpreter(ctx, games, clause, fields=None, label="python -O"):
+    """The results must not depend on the interpreter's optimisation level: `python -O` (PYTHONOPTIMIZE) strips
+    assert statements and sets __debug__ to False; work done inside an assert, or guarded by __debug__, silently
+    disappears.  Solves `games` (both modes) in a fresh `python -O` and compares the repr of every result with
+    the one of a fresh normal interpreter.  fields: indices of the result tuple to compare (None = all)."""
+    import json
+    import os
+    import subprocess
+    import sys
+    import tempfile
+    from crlib import REPO
+    prog = ("import json,sys\nsys.path.insert(0, %r)\nimport logging\nlogging.disable(logging.CRITICAL)\n"
+            "from tad import StochasticGame\nout=[]\n"
+            "for g in json.load(open(sys.argv[1])):\n"
+            "    g['transition_list']=[[tuple(t) for t in r] for r in g['transition_list']]\n"
+            "    for p in (True, False):\n"
+            "        try:\n            r = StochasticGame(**g, prune_states=p).solve()\n"
+            "            out.append([repr(x) for x in r])\n"
+            "        except Exception as e:\n            out.append([type(e).__name__])\n"
+            "print(json.dumps(out))\n") % REPO
+    with tempfile.NamedTemporaryFile("w", suffix=".json", delete=False) as f:
+        json.dump([gen.desc(g) for g in games], f)
+        path = f.name
+    try:
+        res = []
+        for flags in ((), ("-O",)):
+            try:
+                p = subprocess.run([sys.executable, *flags, "-c", prog, path], capture_output=True, text=True, timeout=120,
+                                   env={k: v for k, v in dict(os.environ, PYTHONDONTWRITEBYTECODE="1").items() if k != "PYTHONOPTIMIZE"})
+            except subprocess.TimeoutExpired:
+                ctx.count("timeout")          # termination is judged by C06/C11
+                return
+            res.append(json.loads(p.stdout.strip().split("\n")[-1]) if p.returncode == 0 and p.stdout.strip() else
+                       [["rc=%d %s" % (p.returncode, p.stderr[-200:])]] * (2 * len(games)))
+    finally:
+        os.unlink(path)
+    ctx.case({"interpreter": label, "games": len(games)}, True)
+    for i, (a, b) in enumerate(zip(*res)):
+        if fields is not None and len(a) > 1 and len(b) > 1:
+            a, b = [a[k] for k in fields], [b[k] for k in fields]
+        if a != b:
+            ctx.violation(clause, {"game": gen.desc(games[i // 2]), "prune": i % 2 == 0, "interpreter": label},
+                          {"normal_interpreter": [x[:200] for x in a], label: [x[:200] for x in b]})
+            return
